@@ -8,7 +8,7 @@
 From stdpp Require Import gmap list numbers sorting.
 From Coq Require Import ZifyN ZifyNat ZifyBool Lia.
 From Drummer.Model Require Import DB Sched Fleet FleetRun.
-From Drummer.Proofs Require Import DBProofs DBViewProofs.
+From Drummer.Proofs Require Import DBProofs DBViewProofs DBTimeProofs.
 Local Open Scope N_scope.
 Notation hist_of := Fleet.hist_of.   (* DBViewProofs has another [hist_of] *)
 
@@ -1398,4 +1398,33 @@ Proof.
     by exists e.
   - intros a fh Ha. pose proof (forallb_map_to_list _ _ Hhosts a fh Ha) as Hx. cbn [fst snd] in Hx.
     repeat (apply andb_true_iff in Hx as [Hx ?]). apply bool_decide_eq_true in H0, H1. done.
+Qed.
+
+(** ** ticks_ordered: every stored report time is at most the DB's logical time (no underflow in the
+    failure detector), along every execution; needs no other invariant (DBTimeProofs.step_time_ok) *)
+Lemma fstep_time_ok P st ev st' : fstep P st ev = FOk st' → time_ok (f_db st) → time_ok (f_db st').
+Proof.
+  assert (Hdb : ∀ d c d' v, db_step P d c = SOk d' v → time_ok d → time_ok d').
+  { intros d c d' v Hs. apply (step_time_ok P d c d'). unfold next. by rewrite Hs. }
+  destruct ev as [|h plog|h lost|o|h ccok|h|h|h s r v]; cbn [fstep].
+  - destruct (db_step P (f_db st) CTick) as [d' v| |] eqn:E; try done. intros [= <-]. cbn. by eapply Hdb.
+  - destruct (f_hosts st !! h) as [fh|]; [|done]. destruct (fh_up fh); [|done]. by intros [= <-].
+  - destruct (f_hosts st !! h) as [fh|]; [|done]. destruct (fh_up fh); [|done]. destruct (fh_out fh) as [r|]; [|done].
+    destruct (db_step P (f_db st) (CReport r)) as [d' v| |] eqn:E; try done. intros [= <-]. cbn. by eapply Hdb.
+  - destruct (allowed P (ctx_of_db (f_db st)) o); [|done]. destruct o as [b| |]; [|by intros [= <-]|by intros [= <-]].
+    destruct b as [|q0 b0]; [by intros [= <-]|].
+    destruct (db_step P (f_db st) (CRequests (q0 :: b0))) as [d' v| |] eqn:E; try done. intros [= <-]. cbn. by eapply Hdb.
+  - destruct (f_hosts st !! h) as [fh|]; [|done]. destruct (fh_up fh); [|done].
+    destruct (exec_all _ _ _ _) as [x|]; [|done]. by intros [= <-].
+  - destruct (f_hosts st !! h) as [fh|]; [|done]. destruct (fh_up fh); [|done]. by intros [= <-].
+  - destruct (f_hosts st !! h) as [fh|]; [|done]. destruct (fh_up fh); [done|]. by intros [= <-].
+  - destruct (f_hosts st !! h) as [fh|]; [|done]. destruct (fh_reps fh !! (s, r)); [|done].
+    destruct (_ && _ && _ && _); [|done]. by intros [= <-].
+Qed.
+
+Theorem run_time_ok P evs : ∀ st st', time_ok (f_db st) → steps P st evs = Some st' → time_ok (f_db st').
+Proof.
+  induction evs as [|ev evs IH]; intros st st' Ht; cbn [steps]; [by intros [= <-]|].
+  destruct (fstep P st ev) as [st1| |] eqn:E; [|by apply IH|done].
+  apply IH. by eapply fstep_time_ok.
 Qed.
